@@ -4,7 +4,8 @@ import Driver.Util
 /-! Line-protocol driver for C17: `C17 <op> <args...>` -> one observable line.
 
     ops
-      hist  <op>*            container history; op ∈ a<id>:<intent> | p<int> | r<intent> | g<intent> | A_ | A<intent> | T<i,i,..>
+      hist  <op>*            container history; op ∈ a<id>:<arg> | a<id>:d | p<int> | r<arg> | g<arg> | A_ | A<arg> | T<e,e,..> | T-
+                             arg = <nat> (integer intent code) | s:<text> (string alias); e = arg | _ (None)
       orig  <ids> <intents> <it>   ORIGINAL remove-by-intent loop on the list of (id,intent)
       space                  all code points < 0x3100 for which the model's `isPySpace` holds
       block <enc> <endian> <datatype> <dims> <ord> <text|_> <table>*     read_data_block
@@ -66,13 +67,28 @@ def showAgg : Agg → String
   | .single i => "O" ++ toString i
   | .tuple l => "T" ++ showList l
 
+/-- an intent argument token: `<nat>` (integer code) | `s:<text>` (string alias) -/
+def parseIntentArg? (s : String) : Option IntentArg :=
+  if s.startsWith "s:" then (parseText? (s.drop 2).toString).map IntentArg.name
+  else s.toNat?.map IntentArg.code
+
+/-- element of an `agg_data` tuple: `_` = None -/
+def parseOptIntentArg? (s : String) : Option (Option IntentArg) :=
+  if s = "_" then some none else (parseIntentArg? s).map some
+
 /-- one history op: new list and the observable result -/
 def histOp (l : List DA) (tok : String) : Option (List DA × String) :=
   let body := (tok.drop 1).toString
   if tok.startsWith "a" then
+    -- a<id>:<arg> | a<id>:d (constructor default intent)
     match body.splitOn ":" with
-    | [i, it] => match i.toNat?, it.toNat? with
-      | some i, some it => let l' := addArray l ⟨i, it⟩; some (l', "-")
+    | i :: rest =>
+      let argS := ":".intercalate rest
+      match i.toNat?, (if argS = "d" then some none else (parseIntentArg? argS).map some) with
+      | some i, some arg =>
+        match newArray K i arg with
+        | some d => some (addArray l d, "-")
+        | none => some (l, "ERR:KeyError")
       | _, _ => none
     | _ => none
   else if tok.startsWith "p" then
@@ -82,14 +98,22 @@ def histOp (l : List DA) (tok : String) : Option (List DA × String) :=
       | .error _ => some (l, "ERR:IndexError")
     | none => none
   else if tok.startsWith "r" then
-    body.toNat?.map (fun it => (removeByIntent l it, "-"))
+    (parseIntentArg? body).map (fun a => match removeByIntentArg K l a with
+      | .ok l' => (l', "-")
+      | .error _ => (l, "ERR:KeyError"))
   else if tok.startsWith "g" then
-    body.toNat?.map (fun it => (l, "g" ++ showIds (getArraysFromIntent l it)))
-  else if tok = "A_" then some (l, showAgg (aggOne K.timeSeries l none))
+    (parseIntentArg? body).map (fun a => match getArraysFromIntentArg K l a with
+      | .ok r => (l, "g" ++ showIds r)
+      | .error _ => (l, "ERR:KeyError"))
   else if tok.startsWith "A" then
-    body.toNat?.map (fun it => (l, showAgg (aggOne K.timeSeries l (some it))))
+    (parseOptIntentArg? body).map (fun a => match aggData K l a with
+      | .ok r => (l, showAgg r)
+      | .error _ => (l, "ERR:KeyError"))
   else if tok.startsWith "T" then
-    (parseNatList? body).map (fun cs => (l, "+".intercalate ((aggTuple K.timeSeries l cs).map showAgg)))
+    (if body = "-" then some [] else (body.splitOn ",").mapM parseOptIntentArg?).map (fun as =>
+      match aggDataTuple K l as with
+      | .ok rs => (l, "T(" ++ "+".intercalate (rs.map showAgg) ++ ")")
+      | .error _ => (l, "ERR:KeyError"))
   else none
 
 def runHist : List DA → List String → Option (List String)
